@@ -56,6 +56,24 @@ Proof.
         -- intros [[H|H]|H]; [left; exact H|right; apply I2; left; exact H|right; apply I2; right; exact H].
 Qed.
 
+(* set_many's batches are dicts (batch_put): same servers as batch_add, the server's items updated as a dict *)
+Lemma batch_put_keys (b : list (server * list dyn)) sv k v : map fst (batch_put b sv k v) = map fst (batch_add b sv (DTuple [k; v])).
+Proof. induction b as [|[s0 l] t IH]; cbn [batch_put batch_add map fst]; [reflexivity|]. destruct (list_eqb s0 sv); cbn [map fst]; [reflexivity|rewrite IH; reflexivity]. Qed.
+Lemma blookup_put (b : list (server * list dyn)) sv k v sv' :
+  blookup (batch_put b sv k v) sv' = if list_eqb sv sv' then dict_put (blookup b sv') k v else blookup b sv'.
+Proof.
+  induction b as [|[s0 l] t IH]; cbn [batch_put blookup].
+  - destruct (list_eqb sv sv'); reflexivity.
+  - destruct (list_eqb s0 sv) eqn:E0; cbn [blookup].
+    + apply list_eqb_eq in E0. subst s0. destruct (list_eqb sv sv'); reflexivity.
+    + destruct (list_eqb s0 sv') eqn:E1.
+      * apply list_eqb_eq in E1. subst s0. destruct (list_eqb sv sv') eqn:E2; [|reflexivity].
+        apply list_eqb_eq in E2. subst sv'. rewrite list_eqb_refl in E0. discriminate.
+      * exact IH.
+Qed.
+Lemma batch_servers_put (b : list (server * list dyn)) sv k v : NoDup (map fst b) -> NoDup (map fst (batch_put b sv k v)).
+Proof. intros ND. rewrite batch_put_keys. apply (batch_servers_add b sv (DTuple [k; v]) ND). Qed.
+
 (* the batches a multi-key call builds *)
 Fixpoint batches_of (nodes : list server) (keys : list dyn) (b : list (server * list dyn)) : list (server * list dyn) :=
   match keys with
